@@ -213,6 +213,10 @@ var Ops = []Op{
 		n, err := s.Tok.GetBlockID(hx.Fact(refdl.A("right", rx.Str(fmt.Sprintf("never-seen-term-%d", id)), rx.Str("read"))))
 		return fmt.Sprint(n, err)
 	}},
+	{Name: "GetBlockID-known-name-unseen-string-inside-a-set", Run: func(s *Shared, id int) string {
+		n, err := s.Tok.GetBlockID(hx.Fact(refdl.A("right", rx.SetOf(rx.Str("read"), rx.Str(fmt.Sprintf("never-seen-in-set-%d", id))), rx.Str("read"))))
+		return fmt.Sprint(n, err)
+	}},
 	{Name: "GetBlockID-present", Run: func(s *Shared, id int) string {
 		n, err := s.Tok.GetBlockID(hx.Fact(refdl.A("right", rx.Str("read"), rx.Str("read"))))
 		return fmt.Sprint(n, err)
